@@ -34,6 +34,9 @@ const prop = "C16"
 type Case struct {
 	S Session    `json:"s"`
 	C Corruption `json:"c"`
+	// Twice: the corrupted session is run two times in a row in one worker
+	// process (a message that was rejected must be rejected again).
+	Twice bool `json:"twice,omitempty"`
 }
 
 var dirName = [2]string{"g2e", "e2g"}
@@ -222,6 +225,16 @@ func shapeClasses(rep Reply, dir string) []string {
 func run(cs Case) ev.Outcome {
 	if cs.C.Dir != 0 && cs.C.Dir != 1 || cs.C.Off < 0 {
 		return ev.Outcome{Skip: "malformed corruption"}
+	}
+	if cs.Twice {
+		c1, c2 := cs.C, cs.C
+		st := Step{X: cs.S.X, Y: cs.S.Y, Seed: cs.S.Seed, C: &c1}
+		st2 := st
+		st2.C = &c2
+		st2.Seed = cs.S.Seed + 1
+		sc := SeqCase{S: cs.S, Steps: []Step{st, st2}, Procs: 1}
+		sc.S.X, sc.S.Y, sc.S.Seed = "", "", 0
+		return runSeq(sc)
 	}
 	p := getPool()
 	req := Request{S: cs.S, C: &cs.C}
@@ -474,6 +487,15 @@ func drawCorruption(t *rapid.T, rep Reply, err error, focus string) Corruption {
 			c.Mask = drawMask(t)
 			return c
 		}
+	case usable && focus == "evalarg":
+		// The description of the evaluator's argument in the streaming
+		// program header (name, type text, sizes).
+		c.Dir = 0
+		for _, sg := range rep.Layout {
+			if sg.Dir == 0 && strings.HasPrefix(sg.Kind, "evalarg") {
+				segs = append(segs, sg)
+			}
+		}
 	case usable && focus == "late":
 		c.Dir = 0
 		if uni(t, 3, "beyond") == 0 {
@@ -710,7 +732,8 @@ func TestEnumerate(t *testing.T) {
 					if run[m] {
 						must[len(all)] = true
 					}
-					all = append(all, Case{S: s, C: Corruption{Dir: dir, Off: off, Mask: m}})
+					all = append(all, Case{S: s, C: Corruption{Dir: dir, Off: off, Mask: m},
+						Twice: run[m] && strings.HasPrefix(kind, "evalarg-")})
 				}
 			}
 		}
